@@ -51,6 +51,11 @@ IA64_BRANCH_TABLE = [0, 0, 0, 0, 0, 0, 0, 0, 0, 0, 0, 0, 0, 0, 0, 0,
                      4, 4, 6, 6, 0, 0, 7, 7, 4, 4, 0, 0, 4, 4, 0, 0]
 
 
+def ia64_slot(inst):
+    """41-bit instruction slot (normalised): branch unit opcode 5 (br.call / IP-relative branch), btype 0."""
+    return ((inst >> 37) & 0xF) == 0x5 and ((inst >> 9) & 0x7) == 0
+
+
 def arm64_bl(instr):
     return (instr >> 26) == 0x25
 
